@@ -261,7 +261,7 @@ func (w *World) Restart(f *Fake) {
 	// the previous attachment's single monitor event must have been consumed
 	if c != nil {
 		for i := 0; i < 3000; i++ {
-			if !c.Signalled() || (c.Delivered != 0 && len(c.monitorChan) == 0) {
+			if !c.Signalled() || (atomic.LoadInt32(&c.Delivered) != 0 && len(c.monitorChan) == 0) {
 				break
 			}
 			time.Sleep(time.Millisecond)
